@@ -237,6 +237,7 @@ def render_zone(z):
         ("to_text", lambda: z.to_text()),
         ("to_text_abs", lambda: z.to_text(relativize=False)),
         ("iterate", lambda: [rds.to_text() for (_, rds) in z.iterate_rdatasets()]),
+        ("to_wire", lambda: [rds.to_wire(n, io.BytesIO(), origin=z.origin) for (n, rds) in z.iterate_rdatasets()] if z.origin is not None else None),
     ):
         try:
             fn()
@@ -485,8 +486,9 @@ def run_probe(entry, payload, seconds=None):
             for rr in val[1]:
                 try:
                     rr.to_text()
+                    rr.to_wire(io.BytesIO(), origin=dns.name.root)
                     for rd in rr:
-                        rd.to_wire()
+                        rd.to_wire(origin=dns.name.root)
                 except Exception as e:  # noqa
                     if not isinstance(e, DNSEX):
                         b.append(("to_text", e))
